@@ -307,8 +307,11 @@ func VerifC13Pairs() {
 	}
 	// mutating operations whose acknowledgement promises an effect: peers, credits, links; the first one
 	// acts on node 0 / wallet 0, the second on either node / wallet (unordered pairs: op1 <= op2)
-	k1, k2 := 1+verifapi.Choose("op1", 5), 1+verifapi.Choose("op2", 5)
+	k1, k2 := 1+verifapi.Choose("op1", 6), 1+verifapi.Choose("op2", 6)
 	verifapi.Assume(k1 <= k2)
+	if a, b := verifapi.Param("pair_a", 0), verifapi.Param("pair_b", 0); a > 0 {
+		verifapi.Assume(k1 == a && k2 == b) // one pair only (registrations of this harness under other properties)
+	}
 	verifReregBare = k2 == 5 && verifapi.Bool("rereg-bare")
 	id1, id2 := ids[0], ids[verifapi.Choose("id2", 2)]
 	a1, a2 := accts[0], accts[verifapi.Choose("acct2", 2)]
@@ -356,6 +359,9 @@ func verifC13OpErr(s *badgerStore, k int, ids []store.NodeID, id store.NodeID, a
 		return s.AddAccountBalance(a, amount)
 	case 4:
 		return s.AddAccountNode(a, id)
+	case 6: // a keep-alive reporting another peer set (an update still in flight on an old connection)
+		_, err := s.UpdateNodePeers(id, []string{string(ids[1])}, 6)
+		return err
 	case 5: // the node registers again (a reconnect): a new record for the same id
 		if verifReregBare {
 			// ... as a bare light client: the record clears what the earlier one carried (kind, host flag, uri)
